@@ -324,6 +324,42 @@ def r4(ctx) -> None:
            "a length mismatch between labels and values raises instead of silently truncating (zip)",
            construct=lib.short(lens[0], 60) if lens else "def")
     _ = fl
+    # the parameter history is written in optimiser space and read back through the inverse transform
+    PH = "glotaran/parameter/parameter_history.py"
+    ap = ctx.fn(PH, "ParameterHistory.append")
+    fla = lib.flow(ap, repo)
+    pp = ap.params()[1]
+    recs = [c for c in lib.method_calls(ap, "append") if lib.chain_text(c.func.value) == "self._parameters"]
+    ctx.sites("C11-R4", "history record store", len(recs), 1)
+
+    def from_export(term, idx) -> bool:
+        for a in term.all_atoms():
+            if a[0] == "item" and a[2] == (idx,):
+                inner = Poly(dict(a[1])).single_atom()
+                if inner and inner[0] == "mcall" and inner[2] == "get_label_value_and_bounds_arrays" \
+                        and inner[1] == Poly.atom(("name", pp)).key() and not inner[3] and not inner[4]:
+                    return True
+        return False
+
+    for c in recs:
+        t = fla.term(c.args[0], lib.stmt_of(c))
+        ctx.ob("C11-R4", "ParameterHistory.append/optimiser-space-values", from_export(t, 1), ap, lib.stmt_of(c),
+               "history records hold the optimiser-space vector of *all* parameters (position 1 of "
+               "get_label_value_and_bounds_arrays()), because set_from_history feeds them back through "
+               "set_from_label_and_value_arrays, which applies the inverse transform", [f"record term: {t!r}"])
+    lab_st = [s for t_, s in lib.attr_stores(ap, "self._parameter_labels")]
+    for s_ in lab_st:
+        t = fla.term(s_.value, s_)
+        ctx.ob("C11-R4", "ParameterHistory.append/labels-of-same-export", from_export(t, 0), ap, s_,
+               "the history labels are position 0 of the same export (plus the leading 'iteration')", [f"label term: {t!r}"])
+    sh = ctx.fn(PS, "Parameters.set_from_history")
+    cs = [c for c in lib.method_calls(sh, "set_from_label_and_value_arrays")]
+    for c in cs:
+        ok = len(c.args) == 2 and all(isinstance(a, ast.Subscript) and isinstance(a.slice, ast.Slice) and a.slice.upper is None
+                                      and isinstance(a.slice.lower, ast.Constant) and a.slice.lower.value == 1 for a in c.args) \
+            and "parameter_labels" in norm(c.args[0]) and "get_parameters" in norm(c.args[1])
+        ctx.ob("C11-R4", "set_from_history/reads-through-inverse-transform", ok, sh, lib.stmt_of(c),
+               "a history record (without its leading iteration entry) is applied with set_from_label_and_value_arrays")
 
 
 def check(ctx) -> None:
